@@ -148,6 +148,11 @@ def run(an: Analysis, rep):
     from . import c04
     rep.run(c03.r035, an, SharedRules(rep, "R06.W", "operand width thresholds and unit emission (shared with C03's R03.5): the normal form has no recorded widths, so every operand goes through the size function on each to_code"))
     rep.run(c04.r041, an, SharedRules(rep, "R06.H", "the decoder slices co_varnames into the parameter kinds as the encoder lays them out (shared with C04's R04.1): otherwise the names change place on every to_code / from_code round trip"))
+    from . import c01 as _c01r
+    shr6 = SharedRules(rep, "R06.S", "every slot of the re-encoded code object is built from the data of that slot, under every interpreter version (shared with C01's R01.2): the normal form survives to_code / from_code")
+    from sa.analysis import VERSIONS as _VS6
+    for _V in _VS6:
+        rep.run(_c01r.r012, an, shr6, _V)
     from . import c12
     rep.run(c12.arg_mutation_rule, an, rep, "R06.M", ["from_json", "to_json", "normalize", "to_code"])
     from . import c07
